@@ -171,6 +171,38 @@ func c16DoneClosed(cli *mqtt.BaseClient) bool {
 
 var errC16Close = errors.New("closing handshake failed")
 
+// c16OnlyLeaf reports whether target is the only root cause in err's tree (an error that joins the
+// real cause with the cleanup error still tells what ended the connection).
+func c16OnlyLeaf(err, target error) bool {
+	found, other := false, false
+	var walk func(e error)
+	walk = func(e error) {
+		if e == nil {
+			return
+		}
+		if e == target {
+			found = true
+			return
+		}
+		switch u := e.(type) {
+		case interface{ Unwrap() []error }:
+			for _, x := range u.Unwrap() {
+				walk(x)
+			}
+		case interface{ Unwrap() error }:
+			if in := u.Unwrap(); in != nil {
+				walk(in)
+				return
+			}
+			other = true
+		default:
+			other = true
+		}
+	}
+	walk(err)
+	return found && !other
+}
+
 func runC16(c *Ctx) {
 	c16Base(c)
 	c16Reconnecting(c)
@@ -220,7 +252,7 @@ func c16Base(c *Ctx) {
 								}
 							}
 							defer func() {
-								if err := cli.Err(); closeFails && err != nil && errors.Is(err, errC16Close) {
+								if err := cli.Err(); closeFails && err != nil && c16OnlyLeaf(err, errC16Close) {
 									vrt.Failf("c16/err-is-not-what-ended-it", "CONNACK %s, ending %s: the connection was ended by the peer / a protocol error / a failing write, but Err() reports the error Transport.Close returned while cleaning up: %v\n %s", ca, e, err, m.String())
 								}
 							}()
